@@ -321,6 +321,75 @@ class World:
         self.mgrs[mid] = m
         return m
 
+    def RM(self, probes: bool = False):
+        """A RE-ENTRANT manager: one object per program, entered again while it is already active (a lock-like or
+        counting resource).  The same object is then listed once per active entry."""
+        if getattr(self, "_rm", None) is not None:
+            return self._rm
+        w = self
+        mid = self.next_id
+        self.next_id += 1
+
+        class RMgr:
+            def __enter__(s):
+                w.log.append(("enter_start", mid))
+                if probes:
+                    w.observer(w, f"in __enter__ of {mid}")
+                w.log.append(("entered", mid))
+                return [s, 1, 2]
+
+            def __exit__(s, et, ev, tb):
+                w.log.append(("exit_start", mid))
+                if probes:
+                    w.observer(w, f"in __exit__ of {mid}")
+                w.log.append(("exit_end", mid))
+                return False
+
+            def __repr__(s):
+                return f"<RM{mid}>"
+
+        self._rm = RMgr()
+        self.mgrs[mid] = self._rm
+        return self._rm
+
+    def RAM(self, probes: bool = False):
+        if getattr(self, "_ram", None) is not None:
+            return self._ram
+        w = self
+        mid = self.next_id
+        self.next_id += 1
+
+        class RAMgr:
+            async def __aenter__(s):
+                w.log.append(("enter_start", mid))
+                if probes:
+                    w.observer(w, f"in __aenter__ of {mid}")
+                if w.ch() == 1:
+                    await trap()
+                w.log.append(("entered", mid))
+                return [s, 1, 2]
+
+            async def __aexit__(s, et, ev, tb):
+                w.log.append(("exit_start", mid))
+                if probes:
+                    w.observer(w, f"in __aexit__ of {mid}")
+                if w.ch() == 1:
+                    await trap()
+                w.log.append(("exit_end", mid))
+                return False
+
+            def __repr__(s):
+                return f"<RAM{mid}>"
+
+        self._ram = RAMgr()
+        self.mgrs[mid] = self._ram
+        return self._ram
+
+    def probe3(self, a, b, c):
+        """A call with three positional arguments (the generated source passes three literal Nones: the shape of the compiler's
+        own `__exit__(None, None, None)` call), probing from inside the callee."""
+        self.observer(self, "probe in body (3-arg call)")
+
     def T(self, target, mgr):
         """Record the text of the `as` target (None if there is none) the generated source gives this manager."""
         if not hasattr(self, "target_of"):
@@ -350,10 +419,11 @@ class World:
                 exiting = mid
             elif ev == "exit_end":
                 if mid in active:
-                    active.remove(mid)
+                    del active[len(active) - 1 - active[::-1].index(mid)]      # (a re-entrant manager: its innermost entry)
                 if exiting == mid:
                     exiting = None
-        return [(m, m == exiting) for m in active]
+        last = {m: i for i, m in enumerate(active)}
+        return [(m, m == exiting and last[m] == i) for i, m in enumerate(active)]
 
     def entering(self) -> Optional[int]:
         """The manager whose __enter__/__aenter__ is in progress, if any."""
@@ -454,8 +524,10 @@ class Gen:
             q = rng.random()
             if q < 0.45:
                 return self.susp(ind)
-            if q < 0.55 and self.probes:
+            if q < 0.52 and self.probes:
                 return [ind + "W.probe()"]
+            if q < 0.55 and self.probes:
+                return [ind + "W.probe3(None, None, None)"]
             if q < 0.63:
                 return [ind + ("if W.ch(): return 3" if self.kind != "agen" else "if W.ch(): return")]
             if q < 0.70:
@@ -481,8 +553,24 @@ class Gen:
                 ctor = ("W.AM(%s)" if is_async else "W.M(%s)") % ("True" if self.probes else "")
                 if self.odd and rng.random() < 0.35:
                     ctor = (rng.choice(["W.ACM(%s)"]) if is_async else rng.choice(["W.SM(%s)", "W.SM(%s)", "W.CM(%s)", "W.ES(%s)", "W.DM(%s)", "W.EQ(%s)", "W.EQ(%s)"])) % ("True" if self.probes else "")
+                if rng.random() < 0.12:
+                    # a re-entrant manager (the same object every time, no `as` target)
+                    items.append(("W.RAM(%s)" if is_async else "W.RM(%s)") % ("True" if self.probes else ""))
+                    continue
                 items.append(f"W.T({t!r}, {ctor})" + (f" as {t}" if t else ""))
-            head = ind + ("async with " if is_async else "with ") + ", ".join(items) + ":"
+            kw = "async with " if is_async else "with "
+            lay = rng.random()
+            if lay < 0.70:
+                head_lines = [ind + kw + ", ".join(items) + ":"]
+            elif lay < 0.82 and k >= 2:
+                # continuation lines: the 2nd+ items (and their BEFORE_WITH) follow instructions of a later line
+                head_lines = [ind + kw + items[0] + ", \\"] + [ind + "        " + it + (", \\" if j < k - 2 else ":") for j, it in enumerate(items[1:])]
+            elif lay < 0.94:
+                # parenthesised, one item per line, trailing comma
+                head_lines = [ind + kw + "("] + [ind + "        " + it + "," for it in items] + [ind + "):"]
+            else:
+                head_lines = [ind + kw + "(", ind + "        " + ",\n".join([items[0]] + [ind + "        " + it for it in items[1:]]), ind + "):"]
+            head = "\n".join(head_lines)
             body = self.block(depth - 1, ind + "    ")
             if rng.random() < 0.3 and self.budget > 0:
                 body += self.shaped_tail(depth - 1, ind + "    ")
@@ -691,6 +779,180 @@ CORPUS = [
 
 
 # layouts with managers the bytecode analysis cannot handle (C06: purity must hold on the fallback paths too)
+# ---- added in round 4 --------------------------------------------------------------------------------------------------
+CORPUS += [
+    # a RE-ENTRANT manager entered twice by the same frame with nothing in between (nested, as two items, in a loop)
+    _c("coro", """    async with W.RAM(True):
+        async with W.RAM(True):
+            await TRAP()
+    async with W.RAM(True), W.RAM(True):
+        pad = 1
+    for _i in range(2):
+        async with W.RAM(True):
+            async with W.RAM(True):
+                if W.ch(): continue
+"""),
+    _c("agen", """    async with W.RAM(True), W.RAM(True), W.RAM(True):
+        yield 1
+    with W.RM(True):
+        with W.RM(True):
+            yield 2
+"""),
+    _c("gen", """    with W.RM(True):
+        with W.RM(True), W.RM(True):
+            yield 1
+        yield 2
+"""),
+    _c("sync", """    with W.RM(True):
+        with W.RM(True), W.RM(True):
+            W.probe()
+        W.probe3(None, None, None)
+"""),
+    # a call with three literal Nones inside with bodies (the shape of the compiler's own exit call)
+    _c("sync", """    with W.T('x', W.M(True)) as x:
+        with W.T(None, W.M(True)), W.T('y', W.M(True)) as y:
+            W.probe3(None, None, None)
+        W.probe3(None, None, None)
+"""),
+    _c("gen", """    with W.T('x', W.M(True)) as x:
+        W.probe3(None, None, None)
+        yield 1
+        with W.T(None, W.M(True)):
+            W.probe3(None, None, None)
+            yield 2
+"""),
+    _c("coro", """    async with W.T('x', W.AM(True)) as x:
+        W.probe3(None, None, None)
+        with W.T(None, W.M(True)):
+            W.probe3(None, None, None)
+            await TRAP()
+"""),
+    # with headers laid out over several lines: an item's setup instruction follows instructions of a LATER line
+    _c("gen", """    with W.T('x', W.M(True)) as x, \\
+            W.T('y', W.M(True)) as y:
+        yield 1
+    with (
+            W.T('ns.a', W.M(True)) as ns.a,
+            W.T(None, W.M(True)),
+    ):
+        yield 2
+    with (
+            W.T('p', W.M(True))
+    ) as p:
+        yield 3
+"""),
+    _c("sync", """    with W.T('x', W.M(True)) as x, \\
+            W.T('y', W.M(True)) as y:
+        W.probe()
+    with (
+            W.T('ns.a', W.M(True)) as ns.a,
+            W.T(None, W.M(True)),
+    ):
+        W.probe()
+"""),
+    _c("coro", """    async with W.T('x', W.AM(True)) as x, \\
+            W.T('y', W.AM(True)) as y:
+        await TRAP()
+    async with (
+            W.T('ns.a', W.AM(True)) as ns.a,
+            W.T(None, W.AM(True)),
+    ):
+        await TRAP()
+"""),
+    # deep static nesting (CPython allows 20 blocks): every enclosing block adds two links to the handler chain
+    _c("coro", """    async with W.T(None, W.AM(True)):
+        with W.T(None, W.M(True)):
+            try:
+                with W.T(None, W.M(True)):
+                    async with W.T(None, W.AM(True)):
+                        try:
+                            async with W.T(None, W.AM(True)):
+                                with W.T(None, W.M(True)):
+                                    try:
+                                        with W.T(None, W.M(True)):
+                                            async with W.T(None, W.AM(True)):
+                                                try:
+                                                    async with W.T(None, W.AM(True)):
+                                                        with W.T(None, W.M(True)):
+                                                            try:
+                                                                with W.T(None, W.M(True)):
+                                                                    await TRAP()
+                                                                    if W.ch(): raise Boom()
+                                                            finally:
+                                                                pad = 1
+                                                finally:
+                                                    pad = 1
+                                    finally:
+                                        pad = 1
+                        finally:
+                            pad = 1
+            finally:
+                pad = 1
+"""),
+    _c("gen", """    with W.T(None, W.M(True)):
+        with W.T(None, W.M(True)):
+            try:
+                with W.T(None, W.M(True)):
+                    with W.T(None, W.M(True)):
+                        try:
+                            with W.T(None, W.M(True)):
+                                with W.T(None, W.M(True)):
+                                    try:
+                                        with W.T(None, W.M(True)):
+                                            with W.T(None, W.M(True)):
+                                                try:
+                                                    with W.T(None, W.M(True)):
+                                                        with W.T(None, W.M(True)):
+                                                            try:
+                                                                yield 1
+                                                                if W.ch(): raise Boom()
+                                                            finally:
+                                                                pad = 1
+                                                finally:
+                                                    pad = 1
+                                    finally:
+                                        pad = 1
+                        finally:
+                            pad = 1
+            finally:
+                pad = 1
+"""),
+    _c("coro", """    async with W.T(None, W.AM(True)), W.T(None, W.AM(True)), W.T(None, W.AM(True)), W.T(None, W.AM(True)), W.T(None, W.AM(True)), W.T(None, W.AM(True)), W.T(None, W.AM(True)), W.T(None, W.AM(True)), W.T(None, W.AM(True)), W.T(None, W.AM(True)), W.T(None, W.AM(True)), W.T(None, W.AM(True)), W.T(None, W.AM(True)), W.T(None, W.AM(True)):
+        await TRAP()
+"""),
+]
+
+
+def _closure_prog(kind: str) -> str:
+    """A program whose frame is a NESTED function reading a variable of its enclosing function, with an inlined comprehension
+    (3.12+) whose iteration variable has the same name, and a name that is both an ordinary local and such a variable captured by
+    a nested lambda: names that occur in two of co_varnames / co_cellvars / co_freevars."""
+    head = {"gen": "def prog(W, ns, d):", "coro": "async def prog(W, ns, d):", "sync": "def prog(W, ns, d):"}[kind]
+    susp = {"gen": "yield 1", "coro": "await TRAP()", "sync": "W.probe()"}[kind]
+    kw = "async with" if kind == "coro" else "with"
+    ctor = "W.AM(True)" if kind == "coro" else "W.M(True)"
+    body = f"""
+    x = y = p = q = pad = None
+    rows = [1, 2, 3]
+    for m in rows:
+        pad = m
+    shared = [m for m in rows if any(o is m for o in rows)]
+    both = [key for key in rows] + [key]
+    {kw} W.T('x', {ctor}) as x:
+        {susp}
+        {kw} W.T(None, {ctor}):
+            {susp}
+            if W.ch(): raise Boom()
+"""
+    inner = head + body
+    inner = "\n".join("    " + l if l else l for l in inner.split("\n"))
+    outer_head = inner.split("\n")[0].strip()
+    return ("def _make():\n    key = 5\n" + inner + "\n    return prog\nprog = _make()\n")
+
+
+CORPUS += [(k, _closure_prog(k)) for k in ("gen", "coro", "sync")]
+
+
 CORPUS_ODD = [
     _c("gen", """    with W.T(None, W.SM(True)):
         yield 1
